@@ -142,7 +142,7 @@ def run(ctx):
     ctx.log(f"{len(plain)} + {len(hooked)} TSan engine sessions in {time.time() - t0:.1f}s")
     judge_tsan_sessions(ctx, plain + hooked, "texel (TSan)")
     c10.judge(ctx, plain, "tsan-sessions-hooks-inert", check_accept=False)
-    nev = c10.judge(ctx, hooked, "tsan-sessions-accepted")
+    nev = c10.judge(ctx, hooked, "tsan-sessions-accepted", strict=True)
     ctx.log(f"{nev} events of the TSan build replayed through the model")
     # (3) the utility tool's worker pool
     r = ctx.rng
